@@ -116,6 +116,8 @@ def classify(preds, name, case, detail):
 
 
 def check_shape_cases(L, drv, FAM, items, stats, preds):
+    from harness import c08_cases as _cc
+    c08_cases_BRANCHES = _cc.BRANCHES
     """items: list of (name, case).  Returns problems [(kind, name, case, detail)],
     kind in {tie-term, tie-model, tie-spec, property}."""
     lines = [FAM[n]["line"](c) for n, c in items]
@@ -138,6 +140,13 @@ def check_shape_cases(L, drv, FAM, items, stats, preds):
             stats["has_zero_dim"] += 1
         if F["branch"]:
             stats[f"branch:{name}:{F['branch'](case)}"] += 1
+        for bf in c08_cases_BRANCHES.get(name, []):
+            try:
+                b = bf(case)
+            except Exception:
+                b = None
+            if b:
+                stats[f"br:{name}:{b}"] += 1
         for key in ("dim", "a", "b", "d1", "d2"):
             if key in case and isinstance(case[key], int) and name not in ("add", "sub"):
                 r_ = rank + (1 if name in ("unsqueeze", "stack") else 0)
@@ -237,6 +246,32 @@ def main(run: core.Run) -> None:
         k = per_fn * WEIGHT.get(n, 1) * (4 if (n in drifted and run.tier == "quick") else 1)
         for _ in range(k):
             items.append((n, FAM[n]["gen"](run.rng)))
+    # directed generation: every required branch of the modelled code gets at least one case per run
+    def keys_of(n, c):
+        out = []
+        for bf in c08_cases.BRANCHES.get(n, []):
+            try:
+                b = bf(c)
+            except Exception:
+                b = None
+            if b:
+                out.append(f"{n}:{b}")
+        return out
+    hit = set(k for n, c in items for k in keys_of(n, c))
+    directed = 0
+    for key in c08_cases.REQUIRED:
+        if key in hit:
+            continue
+        fn_name = key.split(":", 1)[0]
+        for _ in range(4000):
+            c = FAM[fn_name]["gen"](run.rng)
+            ks = keys_of(fn_name, c)
+            if key in ks:
+                items.append((fn_name, c))
+                hit.update(ks)
+                directed += 1
+                break
+    stats["directed_cases"] = directed
     seen = set()
     uniq = []
     for n, c in items:
@@ -337,6 +372,10 @@ def main(run: core.Run) -> None:
     )
     for n, c in uniq[:3] + uniq[len(uniq) // 2: len(uniq) // 2 + 3]:
         run.sample({"name": n, "line": FAM[n]["line"](c), "dtype": c.get("dtype")})
+    missing = [k for k in c08_cases.REQUIRED if stats["br:" + k] == 0]
+    run.coverage["required_branches"] = {"required": len(c08_cases.REQUIRED), "missing": missing}
+    if missing and not run.violations:
+        raise core.Infra("generator degenerated: required branches of the modelled code never hit: " + ", ".join(missing[:8]))
     if run.tier == "quick" or True:
         for br in ("identity", "Flatten(axis=1)", "Flatten(axis=end+1)", "reshape"):
             if stats[f"branch:flatten:{br}"] < 12:
